@@ -58,12 +58,13 @@ func (k Keeper) DistributeExtRewardLocker(ctx sdk.Context) error {
 								continue
 							}
 						}
-						userShare := (sdk.NewDec(locker.NetBalance.Int64())).Quo(sdk.NewDec(totalShare.Int64())) // getting share percentage
-						availableRewards := v.AvailableRewards                           // Available Rewards
-						Duration := v.DurationDays - int64(epoch.Count)                  // duration left (total duration - current count)
+						availableRewards := v.AvailableRewards          // Available Rewards
+						Duration := v.DurationDays - int64(epoch.Count) // duration left (total duration - current count)
 
 						epochRewards := sdk.NewDec(availableRewards.Amount.Int64()).Quo(sdk.NewDec(Duration))
-						dailyRewards := userShare.Mul(epochRewards)
+						// user's share of the epoch rewards: multiply before dividing, a share rounded to 18 decimals
+						// first lets the shares add up to more than the whole and the program pay more than it has
+						dailyRewards := epochRewards.MulInt64(locker.NetBalance.Int64()).QuoInt64(totalShare.Int64())
 						user, _ := sdk.AccAddressFromBech32(locker.Depositor)
 						finalDailyRewards := dailyRewards.TruncateInt()
 						// after calculating final daily rewards, the amount is sent to the user
@@ -139,10 +140,10 @@ func (k Keeper) DistributeExtRewardVault(ctx sdk.Context) error {
 								continue
 							}
 						}
-						individualUserShare := sdk.NewDec(userVault.AmountOut.Int64()).Quo(sdk.NewDecFromInt(appExtPairVaultData.TokenMintedAmount)) // getting share percentage
-						Duration := v.DurationDays - int64(epoch.Count)                                                                  // duration left (total duration - current count)
+						Duration := v.DurationDays - int64(epoch.Count) // duration left (total duration - current count)
 						epochRewards := (sdk.NewDec(totalRewards.Amount.Int64())).Quo(sdk.NewDec(Duration))
-						dailyRewards := individualUserShare.Mul(epochRewards)
+						// user's share of the epoch rewards: multiply before dividing (see DistributeExtRewardLocker)
+						dailyRewards := epochRewards.MulInt64(userVault.AmountOut.Int64()).QuoInt(appExtPairVaultData.TokenMintedAmount)
 						finalDailyRewards := dailyRewards.TruncateInt()
 
 						user, _ := sdk.AccAddressFromBech32(userVault.Owner)
